@@ -6,7 +6,7 @@ ID=$1; F=$2; PAT=$3; REP=$4; TIER=${5:-quick}
 export GOFLAGS=-mod=mod GOPROXY=off GOSUMDB=off GOTOOLCHAIN=local
 WT=/tmp/vmut-$$
 git -C /repo worktree add -q --detach $WT HEAD || exit 9
-trap 'git -C /repo worktree remove --force $WT; rm -rf /verif/.work/*/mut_tmp_vmut-*' EXIT
+trap 'git -C /repo worktree remove --force $WT; rm -rf /verif/.work/*/mut_tmp_vmut-'$$ EXIT
 python3 - "$WT/$F" "$PAT" "$REP" <<'PY'
 import re,sys
 f,p,r=sys.argv[1:4]
@@ -19,5 +19,5 @@ PY
 git -C $WT diff --stat | tail -1
 if [ -n "${MUT_TEST:-}" ]; then (cd $WT && go test -count=1 -vet=off $MUT_TEST 2>&1 | tail -3); fi
 cd /verif && VERIF_REPO=$WT ./run.sh $ID $TIER | grep -v '^badger' | tail -6; rc=${PIPESTATUS[0]}
-rm -f /verif/bin/*-mut_tmp_vmut-*
+rm -f /verif/bin/*-mut_tmp_vmut-$$
 echo "mutant exit=$rc"
